@@ -265,6 +265,24 @@ func runC15(c *core.Ctx, o Options) {
 	c.Check(nCT >= 1, "U3", "", "stores to CloseTimeout found", 0, fmt.Sprint(nCT), "no store to LogonSettings.CloseTimeout found (the Logon handler's replacement was confirmed)")
 	s.checkStateReadAfterDecode("U7")
 	c.Explanation += " U7: in every inbound handler the state a branch tests is read after the message has been decoded (no Unmarshal between the read and the test): a snapshot taken before the decode misses a Stop()/Logout() that lands meanwhile."
+	s.checkCallbacksOutsideStateLock("U4")
+	// U6 (premise): the all-types handlers (which restore SuccessfulLogged from a pending probe) run before the Logout handler
+	checkInboundDispatch(c, "U6")
+	// U3 (the deadline stays armed): Stop itself never stops the timer it has just armed — only the logout-event callback does
+	if st := s.m.Method("Stop"); st != nil {
+		bad := ""
+		an.AllInstrs(st, func(in ssa.Instruction) {
+			cc := an.CallOf(in)
+			if cc == nil {
+				return
+			}
+			if cal := an.StaticCallee(cc); cal != nil && an.FuncIs(cal, "time", "Timer.Stop") || cal != nil && an.FuncIs(cal, "time", "Timer.Reset") {
+				bad = "Stop calls (or defers) " + an.NameOf(cal) + " on " + an.Render(cc.Args[0]) + " at " + c.RelPos(in.Pos())
+			}
+		})
+		c.Check(bad == "", "U3", "Stop", "the close deadline armed by Stop is left running", st.Pos(), "no Timer.Stop/Reset in Stop itself", bad+": the deadline callback never fires, and a peer that does not answer the Logout keeps the session alive for ever")
+	}
+	c.Explanation += " U3 also: Stop itself never stops or resets the deadline timer it armed. U4 also: callbacks are triggered with no session mutex held. U6 premise: the inbound dispatch order (all-types handlers before the Logout handler)."
 	c.RuleMin = map[string]int{"M1": 3, "U1": 3, "U2": 1, "U3": 3, "U4": 4, "U5": 3, "U6": 5, "U7": 6}
 	c.MinObl = 12
 }
